@@ -154,38 +154,40 @@ Definition obs_first_hop (o : obs) : option (option (str * bool * role)) :=
 
 (* per case: one host, exercised by a plain http request, a CONNECT (+ inner request), an https request in
    absolute form, and (configurations with MITM) a request inside the MITM'd tunnel *)
+(* one client session against one configuration: a list of requests (possibly on one client connection /
+   inside one MITM'd TLS session); each request carries the oracle answers for THAT request (a PAC script may
+   answer by URL; answers come from fresh resolver / matcher instances, so they are history-free) *)
+Definition part := (cfgd * target * obs)%type.
 Record ecase := { ec_rules : list rule;
                   ec_attempts : nat; ec_failures : nat;   (* Dialer retry setting; scripted dial failures per request *)
-                  (* each request carries the oracle answers for THAT request (a PAC script may answer by URL) *)
-                  ec_plain : option (cfgd * target * obs); ec_connect : option (cfgd * target * obs);
-                  ec_tls : option (cfgd * target * obs); ec_mitm : option (cfgd * target * obs) }.
-Definition part_ok (f : config -> list rule -> target -> nat -> nat -> list event) (c : ecase)
-                   (p : option (cfgd * target * obs)) : bool :=
-  match p with
-  | Some (d, t, o) => obs_is o (f (cfg_of d) (ec_rules c) t (ec_attempts c) (ec_failures c))
-  | None => true
+                  ec_parts : list part }.
+Definition part_ok (f : config -> list rule -> target -> nat -> nat -> list event) (c : ecase) (p : part) : bool :=
+  match p with (d, t, o) => obs_is o (f (cfg_of d) (ec_rules c) t (ec_attempts c) (ec_failures c)) end.
+Definition ecase_model_ok (c : ecase) : bool := forallb (part_ok exchange c) (ec_parts c).
+
+(* a plain http request and a CONNECT of the session, for the same address and for which the configuration
+   names the same hop, agree on the first hop *)
+Definition agree_pair (c : ecase) (p q : part) : bool :=
+  match p, q with
+  | (dp, tp, op), (dc, tc, oc) =>
+      match t_kind tp, t_kind tc with
+      | Plain, Connect =>
+          if str_eqb (t_scheme tp) (b "http") && str_eqb (spec_target_addr tp) (spec_target_addr tc) &&
+             hop_eqb (spec_hop (cfg_of dp) tp) (spec_hop (cfg_of dc) tc) &&
+             Nat.ltb (ec_failures c) (effective_attempts (ec_attempts c)) then
+            match obs_first_hop op, obs_first_hop oc with
+            | Some x, Some y => first_hop_eqb x y
+            | _, _ => false
+            end
+          else true
+      | _, _ => true
+      end
   end.
-Definition ecase_model_ok (c : ecase) : bool :=
-  part_ok exchange c (ec_plain c) && part_ok exchange c (ec_connect c) &&
-  part_ok exchange c (ec_tls c) && part_ok exchange c (ec_mitm c).
-(* the property: each request's socket events are exactly the spec's (one party: the one the short spec names
-   for that request, or nobody when it says the request fails), and when the configuration names the same hop
-   for the plain request and the CONNECT for the same host, they agree on the first hop *)
+(* the property: each request's socket events are exactly the spec's for that request (one party: the one the
+   short spec names, or nobody when it says the request fails) and plain/CONNECT agree *)
 Definition ecase_prop_ok (c : ecase) : bool :=
-  part_ok spec_exchange c (ec_plain c) && part_ok spec_exchange c (ec_connect c) &&
-  part_ok spec_exchange c (ec_tls c) && part_ok spec_exchange c (ec_mitm c) &&
-  match ec_plain c, ec_connect c with
-  | Some (dp, tp, op), Some (dc, tc, oc) =>
-      if str_eqb (t_scheme tp) (b "http") && str_eqb (spec_target_addr tp) (spec_target_addr tc) &&
-         hop_eqb (spec_hop (cfg_of dp) tp) (spec_hop (cfg_of dc) tc) &&
-         Nat.ltb (ec_failures c) (effective_attempts (ec_attempts c)) then
-        match obs_first_hop op, obs_first_hop oc with
-        | Some x, Some y => first_hop_eqb x y
-        | _, _ => false
-        end
-      else true
-  | _, _ => true
-  end.
+  forallb (part_ok spec_exchange c) (ec_parts c) &&
+  forallb (fun p => forallb (agree_pair c p) (ec_parts c)) (ec_parts c).
 
 (* ---------- H: history independence of the PAC resolver: a sequence of look-ups on ONE resolver (bare, and
    through the pool), each answer next to the answer of a fresh resolver asked only that question *)
